@@ -243,6 +243,9 @@ def _multi_case(draw, tier):
             "has_import": draw(st.sampled_from([False, False, True])),
             "nested_import": draw(st.sampled_from([False, False, True])),
             "header_noise": draw(st.booleans()),
+            # layout of the last top-level import statement (the new import is added below it)
+            "imp": draw(st.sampled_from(["plain", "plain", "multiline", "semicolon", "comment", "backslash",
+                                         "tight", "try_after"])),
         })
     return {"files": files, "F": draw(st.sampled_from([["create"], ["create", "fix"], ["create", "fix", "trim", "update"]]))}
 
@@ -256,7 +259,21 @@ def render_multi(case):
         lines += ["from inline_snapshot import snapshot, outsource"]
         if f["has_import"]:
             lines += ["from inline_snapshot import external", "from inline_snapshot import HasRepr"]
-        lines += ["from vf_prelude import *", "", ""]
+        imp = f.get("imp", "plain")
+        if imp == "multiline":
+            lines += ["from vf_prelude import *", "from vf_prelude import (", "    Opaque,", "    Color,  # ünï", ")", "", ""]
+        elif imp == "semicolon":
+            lines += ["from vf_prelude import *; import sys", "", ""]
+        elif imp == "comment":
+            lines += ["from vf_prelude import *  # the last import, ünï", "", ""]
+        elif imp == "backslash":
+            lines += ["from vf_prelude import *", "from vf_prelude import Opaque, \\", "    Color", "", ""]
+        elif imp == "tight":
+            lines += ["from vf_prelude import *"]
+        elif imp == "try_after":
+            lines += ["from vf_prelude import *", "try:", "    import json as _j", "except ImportError:", "    _j = None", "", ""]
+        else:
+            lines += ["from vf_prelude import *", "", ""]
         if f["nested_import"]:
             lines += ["def helper_with_local_import():", "    from inline_snapshot import HasRepr, external", "    return HasRepr, external", "", ""]
         lines.append("def test_a():")
@@ -304,7 +321,8 @@ def check_multi(case):
                         f"F={case['F']}\n" + "\n".join(f"# {k}\n{v}" for k, v in after.items()) + r2.stdout[-2000:])
     kinds = [f["kind"] for f in case["files"]]
     nt = len(set(kinds) & {"external", "hasrepr", "both"}) >= 1 and len(set(kinds) & {"plain", "unchanged"}) >= 1
-    return {"nontrivial": nt, "classes": sorted(set(kinds)) + (["nested-import"] if any(f["nested_import"] for f in case["files"]) else []),
+    return {"nontrivial": nt, "classes": sorted(set(kinds)) + (["nested-import"] if any(f["nested_import"] for f in case["files"]) else [])
+            + sorted({"imp=" + f.get("imp", "plain") for f in case["files"] if f["kind"] in ("external", "hasrepr", "both")}),
             "sample": {"F": case["F"], "files": files, "after": after}}
 
 
